@@ -1,1 +1,47 @@
-From Olareg Require Import Base Index Reg.
+(* Props_C01.v — served content always hashes to the digest it is served under.
+   Statements only; proofs in RegProofs.v / RegProofs2.v.  Every theorem is for all
+   environments E (hash function, JSON decoder): nothing is assumed about the hash. *)
+From Olareg Require Import Base Index Reg RegProofs RegProofs2.
+Local Open Scope list_scope.
+
+(* In every state reachable from the empty registry by any history of requests (all upload
+   protocols, algorithm changes, deletes, restarts, session expiry / eviction), every stored
+   blob is stored under the digest the hash function gives for its own bytes. *)
+Theorem C01_integrity : forall cfg E h, BlobsOK E (fst (run_hist cfg E init_state h)).
+Proof. exact blobs_ok_reachable. Qed.
+Print Assumptions C01_integrity.
+
+(* one step preserves it from any state that satisfies it (pre-existing content included) *)
+Theorem C01_step : forall cfg E s q, BlobsOK E s -> BlobsOK E (fst (step cfg E s q)).
+Proof. exact step_blobs_ok. Qed.
+Print Assumptions C01_step.
+
+(* what the blob endpoint serves: the bytes hash to the digest in Docker-Content-Digest,
+   which is the digest requested *)
+Theorem C01_blob_served : forall cfg E r arg rng s s' o,
+  BlobsOK E s -> run cfg E (h_blob_get E r arg rng) s = (s', o) ->
+  s' = s /\ forall b g, rs_body o = BoBlob b g -> rs_digest o = arg /\ blob_ok E arg b.
+Proof. exact blob_get_served. Qed.
+Print Assumptions C01_blob_served.
+
+(* what the manifest endpoint serves, by digest or by tag, with or without negotiation *)
+Theorem C01_manifest_served : forall cfg E r arg acc rng s s' o,
+  BlobsOK E s -> run cfg E (h_manifest_get E r arg acc rng) s = (s', o) ->
+  s' = s /\ forall b g, rs_body o = BoBlob b g -> blob_ok E (rs_digest o) b.
+Proof. exact manifest_get_served. Qed.
+Print Assumptions C01_manifest_served.
+
+(* a manifest push is acknowledged only if the declared digest is the digest of the body *)
+Theorem C01_manifest_mismatch_refused : forall cfg E r arg ctype clen dq body s s' o,
+  run cfg E (h_manifest_put cfg E r arg ctype clen dq body) s = (s', o) ->
+  rs_status o = 201%Z -> mp_accept_cond cfg E r arg ctype clen dq body s.
+Proof. exact manifest_put_accept_sound. Qed.
+Print Assumptions C01_manifest_mismatch_refused.
+
+Example C01_nonvacuous :
+  let E := mkEnv (fun a b => (a ++ ":" ++ b)%string) (fun _ => jbad) (fun b => Z.of_nat (String.length b)) (fun _ b => b) in
+  let s := mkSt [("a", mkR [("sha256:hello", mkB (BRaw "hello") 0)] empty_index true [])] 0 0 in
+  BlobsOK E s.
+Proof. intros E s r rp Ha d be Hd. simpl in Ha. destruct (String.eqb r "a"); inversion Ha; subst.
+       simpl in Hd. destruct (String.eqb d "sha256:hello") eqn:Ed; inversion Hd; subst.
+       apply String.eqb_eq in Ed. subst. simpl. exists "sha256". reflexivity. Qed.
